@@ -356,8 +356,8 @@ class _MessageDB(_Entity):
 
         elif idx:
             msg_dict = {
-                k: v for d in msg.payload for k, v in d.items() if d[idx] == val
-            }
+                k: v for d in msg.payload for k, v in d.items() if d.get(idx) == val
+            }  # NOTE: the elements of an array can be a mix of zone_idx/domain_id
         else:
             # TODO: this isn't ideal: e.g. a controller is being treated like a 'stat
             # .I 101 --:------ --:------ 12:126457 2309 006 0107D0-0207D0  # is a CTL
